@@ -44,6 +44,9 @@ impl<'a> WorkerCore<'a> {
     }
 
     pub(crate) fn run_one_iteration(&self) -> IterationResult {
+        #[cfg(folo_verif)]
+        crate::verif::point("w.check", 0);
+
         // We first check with Relaxed to minimize overhead, as this will be called often.
         if self.shutdown_flag.load(Ordering::Relaxed) {
             // Acquire ordering synchronizes with Release in signal_shutdown, ensuring we see
@@ -53,20 +56,58 @@ impl<'a> WorkerCore<'a> {
             return IterationResult::Shutdown;
         }
 
+        #[cfg(folo_verif)]
+        crate::verif::point("w.pop_u", 0);
+
+        #[cfg(not(folo_verif))]
         let task = self.urgent_queue.lock().expect(NEVER_POISONED).pop_front();
+        #[cfg(folo_verif)]
+        let task = verif_pop(self.urgent_queue, "dequeue_urgent");
         if let Some(mut task) = task {
+            #[cfg(folo_verif)]
+            crate::verif::point("w.run", 0);
+            #[cfg(folo_verif)]
+            crate::verif::event("task_start", 0, crate::verif::task_address(&task));
             task.as_pin_mut().call();
+            #[cfg(folo_verif)]
+            crate::verif::event("task_end", 0, crate::verif::task_address(&task));
             return IterationResult::ExecutedUrgent;
         }
 
+        #[cfg(folo_verif)]
+        crate::verif::point("w.pop_r", 0);
+
+        #[cfg(not(folo_verif))]
         let task = self.regular_queue.lock().expect(NEVER_POISONED).pop_front();
+        #[cfg(folo_verif)]
+        let task = verif_pop(self.regular_queue, "dequeue_regular");
         if let Some(mut task) = task {
+            #[cfg(folo_verif)]
+            crate::verif::point("w.run", 0);
+            #[cfg(folo_verif)]
+            crate::verif::event("task_start", 0, crate::verif::task_address(&task));
             task.as_pin_mut().call();
+            #[cfg(folo_verif)]
+            crate::verif::event("task_end", 0, crate::verif::task_address(&task));
             return IterationResult::ExecutedRegular;
         }
 
         IterationResult::WaitingForWork
     }
+}
+
+/// `queue.lock().pop_front()`, reporting the dequeued task while the queue lock is held.
+#[cfg(folo_verif)]
+fn verif_pop(
+    queue: &Mutex<VecDeque<ErasedTaskHandle>>,
+    event: &'static str,
+) -> Option<ErasedTaskHandle> {
+    let mut queue = queue.lock().expect(NEVER_POISONED);
+    let task = queue.pop_front();
+    if let Some(task) = &task {
+        crate::verif::event(event, 0, crate::verif::task_address(task));
+    }
+    task
 }
 
 #[cfg(test)]
